@@ -329,8 +329,12 @@ PROPS["C04"] = dict(
           "pages are re-fetched) is judged by the same recogniser. Non-trivial: the input has a hostile element and led to at least one "
           "connection beyond the planted document's own fetch / the history issued at least five requests. Distinct = distinct case."),
     units=[
-        rapid("Prop", "TestProp", 8000, 300000, config_toml=_NET + "cache_size = 1\n"),
-        rapid("Browse", "TestBrowse", 800, 40000, shards=(8, 16), config_toml=_NET + "cache_size = 4\n", timeout=dict(quick=600, thorough=3000)),
+        # what a listener received is recorded, not timed: a malformed or surplus request is reported even if it only
+        # arises from what an earlier fetch left behind in a way the replay cannot force (pooled buffers, GC)
+        rapid("Prop", "TestProp", 8000, 300000, config_toml=_NET + "cache_size = 1\n",
+              retry_confirm=3, trust_unconfirmed=r"^request is not exactly|^bytes after the end of the request|did not negotiate TLS|^Host header|^Accept header"),
+        rapid("Browse", "TestBrowse", 800, 40000, shards=(8, 16), config_toml=_NET + "cache_size = 4\n", timeout=dict(quick=600, thorough=3000),
+              retry_confirm=3, trust_unconfirmed=r"^request is not exactly|^bytes after the end of the request|did not negotiate TLS|^Host header|^Accept header"),
     ],
     manifest=dict(
         text=("Property-based testing with a byte-exact request recogniser at the loopback TLS simulator plus a plaintext canary; "
